@@ -554,6 +554,47 @@ def install():
     _installed = True
 
 
+# ---------------------------------------------------------------- line-level scheduling points (shared memory of one process)
+
+_TRACED = {}
+
+
+def trace_lines(codes, label='mem'):
+    """Make every source line of the given code objects a scheduling point (python 3.12 sys.monitoring, local LINE
+    events): used where threads of ONE process race on ordinary attributes (counters updated from callback threads)."""
+    mon = sys.monitoring
+    tool = mon.DEBUGGER_ID
+    if not _TRACED:
+        if mon.get_tool(tool) is None: mon.use_tool_id(tool, 'vf-sched')
+        mon.register_callback(tool, mon.events.LINE, _on_line)
+    for c in codes:
+        if c in _TRACED: continue
+        _TRACED[c] = label
+        mon.set_local_events(tool, c, mon.events.LINE)
+
+
+def _on_line(code, line):
+    s = CUR
+    if s is None or s.aborting: return
+    t = s.by_thread.get(threading.get_ident())
+    if t is None: return
+    yield_point(f'{_TRACED.get(code, "mem")}@pid{t.pid}', f'line:{code.co_name}:{line}')
+
+
+def nested_code(func, *names):
+    """Code objects of closures defined inside `func` (by name)."""
+    out = []
+    def walk(code):
+        for c in code.co_consts:
+            if hasattr(c, 'co_name'):
+                if c.co_name in names: out.append(c)
+                walk(c)
+    walk(func.__code__)
+    missing = set(names) - {c.co_name for c in out}
+    if missing: raise SchedError(f'closures {sorted(missing)} not found in {func.__qualname__}')
+    return out
+
+
 # ---------------------------------------------------------------- one execution, and the explorer
 
 def execute(body, prefix=(), policy='low', max_points=4000, trace_labels=False, before=None):
